@@ -83,10 +83,12 @@ impl<F: Float, D: Data<Elem = F>, T: AsTargets> Fit<ArrayBase<D, Ix2>, T, Prepro
     type Object = FittedWhitener<F>;
 
     fn fit(&self, x: &DatasetBase<ArrayBase<D, Ix2>, T>) -> Result<Self::Object> {
-        if x.nsamples() == 0 {
+        // the sample covariance divides by `nsamples - 1`: with a single sample it is 0 / 0 and the
+        // decomposition of the resulting NaN matrix does not terminate
+        if x.nsamples() < 2 {
             return Err(PreprocessingError::NotEnoughSamples);
         }
-        // safe because of above zero samples check
+        // safe because of above samples check
         let mean = x.records().mean_axis(Axis(0)).unwrap();
         let sigma = x.records() - &mean;
 
